@@ -43,6 +43,6 @@ func TestC01(t *testing.T) {
 	r := ev.Start("C01", "exploration")
 	r.Rule("seeded random histories (encrypt/store, decrypt/load through the same factory, another live factory or a brand-new one, session open/close, factory restart with a new cache policy, clock advances placed around precision / revoke-interval / lifetime boundaries, out-of-band revocation of latest and older IK/SK rows) over one monitored metastore+KMS inside a testing/synctest bubble; every decrypt is compared with the recorded payload and a final sweep decrypts every record through a fresh factory. A history is distinct+non-trivial when it produced more IK generations than partitions (a rotation happened) or contained a revocation.")
 	r.Assume("virtual clock = testing/synctest bubble", "in-memory metastore and static KMS stand in for real ones", "all factories of one world share expire/revoke/precision timing; cache configuration is drawn per factory")
-	runMany(t, r, ev.Pick(300, 2500), Params{Oracles: OC01, Steps: ev.Pick(80, 400), MaxFacts: 3, BigPayloads: ev.Thorough(), ClockBias: 15, RevokeBias: 8, LatencyPct: 8}, 1)
+	runMany(t, r, ev.Pick(300, 2500), Params{Oracles: OC01, Steps: ev.Pick(80, 400), MaxFacts: 3, BigPayloads: ev.Thorough(), ClockBias: 15, RevokeBias: 8, LatencyPct: 8, FaultPct: 25}, 1)
 	r.Finish(t)
 }
